@@ -62,9 +62,13 @@ func (s ScriptV1) ToCore() Script {
 			case float64:
 				s.Script.Vars[k] = fmt.Sprintf("%s %d", v["asset"], int(amount))
 			case json.Number:
-				// exact for any magnitude; a fractional part is truncated as int() does
-				if r, ok := new(big.Rat).SetString(amount.String()); ok {
-					s.Script.Vars[k] = fmt.Sprintf("%s %s", v["asset"], new(big.Int).Quo(r.Num(), r.Denom()))
+				// exact for any magnitude
+				if r, ok := new(big.Rat).SetString(amount.String()); ok && r.IsInt() {
+					s.Script.Vars[k] = fmt.Sprintf("%s %s", v["asset"], r.Num())
+				} else {
+					// not a whole number: pass the text on, the machine refuses it as a monetary
+					// (as it does for the string form "USD 1.5") instead of silently truncating
+					s.Script.Vars[k] = fmt.Sprintf("%s %s", v["asset"], amount)
 				}
 			}
 		default:
